@@ -158,7 +158,7 @@ def zoo_task(t):
             elif wrt == "context":
                 leaves = [("context", cv)]
             else:
-                leaves = [(n, p) for n, p in m.named_parameters()]
+                leaves = [(n, p) for n, p in m.named_parameters() if p.requires_grad]   # (frozen parameters are not trainable ones)
             eps = 1e-6
             for lname, leaf in leaves:
                 gr = leaf.grad
